@@ -89,8 +89,11 @@ def gen_records(desc):
         return [recs]
     if kind == 'pal':
         arm = G.rseq(rng, h)
-        choice = rng.randrange(3)
-        mids = {0: [rng.choice('AT')], 1: [rng.choice('CG')], 2: [rng.choice('AT'), rng.choice('CG')]}[choice]
+        choice = rng.randrange(5)
+        if choice < 3:
+            mids = {0: [rng.choice('AT')], 1: [rng.choice('CG')], 2: [rng.choice('AT'), rng.choice('CG')]}[choice]
+        else:
+            mids = [rng.choice('ACGT') for _ in range(rng.randint(2, 4))]      # repeated sightings, order matters
         recs = [arm + m + M.rc(arm) for m in mids]
         if rng.random() < 0.5:
             recs.append(G.rseq(rng, rng.randint(k, 2 * k)))
@@ -181,7 +184,7 @@ def run_case(desc, ctx):
 
     for variant in (['rel', 'chk'] if desc.get('chk') else ['rel']):
         binary = ctx.bins[variant]
-        out = ctx.path('o_' + variant)
+        out = ctx.path(('o_' if desc['seed'] % 3 else 'E.coli.k12_') + variant)        # a third of the prefixes contain dots
         p = G.ska_build(ctx, out, files, k, rcmode, binary=binary)
         if variant == 'chk':
             res.count('chk_runs')
